@@ -17,5 +17,5 @@ CONSTANTS
 CONSTRAINT StateConstraint
 VIEW View
 INVARIANTS AckedLeSent Contiguous Bounded ProducerBound
-PROPERTIES StepProps
+PROPERTIES StepProps RefinesCredit
 CHECK_DEADLOCK FALSE
